@@ -175,10 +175,15 @@ func checkC12(c *Ctx, r *Report) {
 	}
 	// notifier side: addConn closes every registered channel for non-limited conns, after the conn is in the table
 	if f := r1.need("(*" + swarmP + ".Swarm).addConn"); f != nil {
-		closes := findInstrs(f, func(in ssa.Instruction) bool { return isCallTo(in, "builtin.close") })
+		// (each step directly in addConn, or at the call of a helper extracted since)
+		closes := findInstrs(f, func(in ssa.Instruction) bool {
+			return siteLike(in, func(x ssa.Instruction) bool { return isCallTo(x, "builtin.close") })
+		})
 		tableAdd := findInstrs(f, func(in ssa.Instruction) bool {
-			mu, ok := in.(*ssa.MapUpdate)
-			return ok && strings.Contains(types.TypeString(mu.Map.Type(), nil), "swarm.Conn")
+			return siteLike(in, func(x ssa.Instruction) bool {
+				mu, ok := x.(*ssa.MapUpdate)
+				return ok && strings.Contains(types.TypeString(mu.Map.Type(), nil), "swarm.Conn")
+			})
 		})
 		ok := len(closes) >= 1 && len(tableAdd) == 1
 		if ok {
